@@ -86,7 +86,7 @@ Definition frames_pf (s : wst) := map to_pf (w_out s).
 
 (* the header writeFrame builds is well-formed and its frame passes every per-frame clause *)
 Lemma write_frame_out s fin fl opc p :
-  w_out (write_frame keys cfg s fin fl opc p) = w_out s ++
+  w_out (write_frame_raw keys cfg s fin fl opc p) = w_out s ++
    [({| h_fin := fin; h_rsv1 := fl && is_data_first opc; h_rsv2 := false; h_rsv3 := false; h_opc := opc;
         h_masked := role_eqb role Client; h_key := if role_eqb role Client then keys (w_nkey s) else zero_key;
         h_plen := N.of_nat (length p) |}, p)].
@@ -132,32 +132,44 @@ Qed.
 Definition InvS (s : wst) : Prop :=
   Forall wf_frame (w_out s) /\ conf role co false (frames_pf s) = Some false.
 
+(* inside a message: if the Close frame has already been sent every frame of the message is refused and the wire
+   is as it was between messages; otherwise the message is open on the wire exactly when its first frame went out *)
 Definition InvM (m : mw) : Prop :=
   Forall wf_frame (w_out (m_s m)) /\
   (m_opc m = 0 \/ m_opc m = 1 \/ m_opc m = 2) /\
-  conf role co false (frames_pf (m_s m)) = Some (m_opc m =? 0) /\
+  conf role co false (frames_pf (m_s m)) = Some (if w_close_sent (m_s m) then false else (m_opc m =? 0)) /\
   (m_flate m = true -> co <> None) /\
   wf_bytes (m_tail m) /\ (length (m_tail m) <= 4)%nat.
 
 Lemma frames_pf_write s fin fl opc p :
-  frames_pf (write_frame keys cfg s fin fl opc p) = frames_pf s ++
+  frames_pf (write_frame_raw keys cfg s fin fl opc p) = frames_pf s ++
    [to_pf ({| h_fin := fin; h_rsv1 := fl && is_data_first opc; h_rsv2 := false; h_rsv3 := false; h_opc := opc;
         h_masked := role_eqb role Client; h_key := if role_eqb role Client then keys (w_nkey s) else zero_key;
         h_plen := N.of_nat (length p) |}, p)].
 Proof. unfold frames_pf. rewrite write_frame_out, map_app. reflexivity. Qed.
 
+Lemma close_sent_raw s fin fl opc p : w_close_sent (write_frame_raw keys cfg s fin fl opc p) = w_close_sent s || (opc =? 8).
+Proof. reflexivity. Qed.
+
 Lemma mw_frame_inv m p : InvM m -> wf_payload p -> InvM (mw_frame keys cfg m p).
 Proof.
   intros (Hf & Ho & Hc & Hfl & Ht & Htl) Hp. unfold InvM, mw_frame. cbn [m_s m_opc m_flate m_tail].
-  split; [| split; [left; reflexivity | split; [| split; [exact Hfl | split; assumption]]]].
-  - rewrite write_frame_out. apply Forall_app. split; [assumption|]. constructor; [|constructor].
-    apply mk_frame_wf; [destruct Ho as [->|[->| ->]]; lia | assumption].
-  - rewrite frames_pf_write, conf_app, Hc. cbn [conf]. rewrite frame_ok_built.
-    destruct Ho as [E|[E|E]]; rewrite E in *; cbn [is_control is_data_first N.leb N.eqb N.compare Pos.compare Pos.compare_cont orb negb Pos.eqb andb]; try reflexivity.
-    + rewrite Bool.andb_true_r.
-      destruct (m_flate m) eqn:Efl; [|reflexivity]. destruct co; [reflexivity| exfalso; apply Hfl; reflexivity].
-    + rewrite Bool.andb_true_r.
-      destruct (m_flate m) eqn:Efl; [|reflexivity]. destruct co; [reflexivity| exfalso; apply Hfl; reflexivity].
+  unfold write_frame.
+  assert (Hn : negb ((m_opc m =? 9) || (m_opc m =? 10)) = true) by (destruct Ho as [->|[->| ->]]; reflexivity).
+  rewrite Hn, Bool.andb_true_r.
+  destruct (w_close_sent (m_s m)) eqn:Ecs.
+  - (* refused *) rewrite Ecs. repeat split; auto.
+  - rewrite close_sent_raw, Ecs.
+    assert (H8 : (m_opc m =? 8) = false) by (destruct Ho as [->|[->| ->]]; reflexivity). rewrite H8. cbn [orb].
+    split; [| split; [left; reflexivity | split; [| split; [exact Hfl | split; assumption]]]].
+    + rewrite write_frame_out. apply Forall_app. split; [assumption|]. constructor; [|constructor].
+      apply mk_frame_wf; [destruct Ho as [->|[->| ->]]; lia | assumption].
+    + rewrite frames_pf_write, conf_app, Hc. cbn [conf]. rewrite frame_ok_built.
+      destruct Ho as [E|[E|E]]; rewrite E in *; cbn [is_control is_data_first N.leb N.eqb N.compare Pos.compare Pos.compare_cont orb negb Pos.eqb andb]; try reflexivity.
+      * rewrite Bool.andb_true_r.
+        destruct (m_flate m) eqn:Efl; [|reflexivity]. destruct co; [reflexivity| exfalso; apply Hfl; reflexivity].
+      * rewrite Bool.andb_true_r.
+        destruct (m_flate m) eqn:Efl; [|reflexivity]. destruct co; [reflexivity| exfalso; apply Hfl; reflexivity].
 Qed.
 
 Lemma wf_payload_firstn n p : wf_payload p -> wf_payload (firstn n p).
@@ -228,23 +240,28 @@ Proof.
   assert (Hm1 : InvM (if m_flate m then mw_dz keys dz cfg m DFlush else m)) by (destruct (m_flate m); [apply mw_dz_inv|]; auto).
   set (m1 := if m_flate m then mw_dz keys dz cfg m DFlush else m) in *.
   destruct Hm1 as (Hf & Ho & Hc & Hfl & Ht & Htl).
-  unfold InvS. cbn [w_out].
-  split.
-  - rewrite write_frame_out. apply Forall_app. split; [assumption|]. constructor; [|constructor].
-    apply mk_frame_wf; [destruct Ho as [->|[->| ->]]; lia | apply nil_payload].
-  - unfold frames_pf at 1. cbn [w_out]. fold (frames_pf (write_frame keys cfg (m_s m1) true (m_flate m1) (m_opc m1) [])).
-    rewrite frames_pf_write, conf_app, Hc. cbn [conf]. rewrite frame_ok_built.
-    destruct Ho as [E|[E|E]]; rewrite E in *; cbn [is_control is_data_first N.leb N.eqb N.compare Pos.compare Pos.compare_cont orb negb Pos.eqb andb]; try reflexivity.
-    + rewrite Bool.andb_true_r.
-      destruct (m_flate m1) eqn:Efl; [|reflexivity]. destruct co; [reflexivity| exfalso; apply Hfl; reflexivity].
-    + rewrite Bool.andb_true_r.
-      destruct (m_flate m1) eqn:Efl; [|reflexivity]. destruct co; [reflexivity| exfalso; apply Hfl; reflexivity].
+  unfold InvS. cbn [w_out]. unfold frames_pf at 1. cbn [w_out].
+  unfold write_frame.
+  assert (Hn : negb ((m_opc m1 =? 9) || (m_opc m1 =? 10)) = true) by (destruct Ho as [->|[->| ->]]; reflexivity).
+  rewrite Hn, Bool.andb_true_r.
+  destruct (w_close_sent (m_s m1)) eqn:Ecs.
+  - split; [assumption|]. exact Hc.
+  - split.
+    + rewrite write_frame_out. apply Forall_app. split; [assumption|]. constructor; [|constructor].
+      apply mk_frame_wf; [destruct Ho as [->|[->| ->]]; lia | apply nil_payload].
+    + fold (frames_pf (write_frame_raw keys cfg (m_s m1) true (m_flate m1) (m_opc m1) [])).
+      rewrite frames_pf_write, conf_app, Hc. cbn [conf]. rewrite frame_ok_built.
+      destruct Ho as [E|[E|E]]; rewrite E in *; cbn [is_control is_data_first N.leb N.eqb N.compare Pos.compare Pos.compare_cont orb negb Pos.eqb andb]; try reflexivity.
+      * rewrite Bool.andb_true_r.
+        destruct (m_flate m1) eqn:Efl; [|reflexivity]. destruct co; [reflexivity| exfalso; apply Hfl; reflexivity].
+      * rewrite Bool.andb_true_r.
+        destruct (m_flate m1) eqn:Efl; [|reflexivity]. destruct co; [reflexivity| exfalso; apply Hfl; reflexivity].
 Qed.
 
 Lemma mw_open_inv s typ : InvS s -> (typ = 1 \/ typ = 2) -> InvM (mw_open s typ).
 Proof. intros (Hf & Hc) Ht. unfold InvM, mw_open. cbn [m_s m_opc m_flate m_tail].
   repeat split; auto; try discriminate; try (constructor; fail); try (cbn; lia).
-  rewrite Hc. destruct Ht as [-> | ->]; reflexivity. Qed.
+  rewrite Hc. destruct (w_close_sent s); [reflexivity|]. destruct Ht as [-> | ->]; reflexivity. Qed.
 
 (* well-formed programs: what the API can be asked (payload bytes are bytes; Go lengths fit int64;
    message types are text/binary; control payloads are what Ping / the Pong echo produce) *)
@@ -267,31 +284,38 @@ Proof. intros Hw H. apply close_payload_shape in H. destruct H as [(_ & ->)|(Hv 
     + rewrite E. apply wf_app; auto. apply be_bytes_wf.
     + lia. Qed.
 
+Lemma write_frame_top_inv s fin fl opc p :
+  InvS s -> opc < 16 -> wf_payload p ->
+  (w_close_sent s = false \/ opc = 9 \/ opc = 10 ->
+     frame_ok role co false (to_pf ({| h_fin := fin; h_rsv1 := fl && is_data_first opc; h_rsv2 := false; h_rsv3 := false; h_opc := opc;
+        h_masked := role_eqb role Client; h_key := if role_eqb role Client then keys (w_nkey s) else zero_key;
+        h_plen := N.of_nat (length p) |}, p)) = Some false) ->
+  InvS (write_frame keys cfg s fin fl opc p).
+Proof. intros (Hf & Hc) Ho Hp Hok. unfold write_frame.
+  destruct (w_close_sent s && negb ((opc =? 9) || (opc =? 10))) eqn:E.
+  - split; assumption.
+  - split.
+    + rewrite write_frame_out. apply Forall_app. split; [assumption|]. constructor; [|constructor]. apply mk_frame_wf; auto.
+    + rewrite frames_pf_write, conf_app, Hc. cbn [conf]. rewrite Hok; [reflexivity|].
+      destruct (w_close_sent s); [|left; reflexivity]. cbn [andb] in E. apply Bool.negb_false_iff in E.
+      apply Bool.orb_true_iff in E. destruct E as [E|E]; apply N.eqb_eq in E; auto. Qed.
+
 Lemma w_step_inv s op : InvS s -> wf_op op -> InvS (w_step keys dz cfg s op).
 Proof.
   intros Hs Hop. destruct op as [typ p|typ cs|opc p|code reason]; cbn [wf_op] in Hop; unfold w_step.
   - destruct Hop as (Ht & Hp). destruct (wc_co cfg) eqn:Eco.
     + apply mw_close_inv, mw_write_inv; auto. apply mw_open_inv; auto.
-    + pose proof Hs as (Hf & Hc). unfold InvS. split.
-      * rewrite write_frame_out. apply Forall_app. split; [assumption|]. constructor; [|constructor].
-        apply mk_frame_wf; auto. destruct Ht as [-> | ->]; lia.
-      * rewrite frames_pf_write, conf_app, Hc. cbn [conf]. rewrite frame_ok_built.
-        destruct Ht as [-> | ->]; reflexivity.
+    + apply write_frame_top_inv; auto; [destruct Ht as [-> | ->]; lia|].
+      intros _. rewrite frame_ok_built. rewrite Eco. destruct Ht as [-> | ->]; reflexivity.
   - destruct Hop as (Ht & Hp). apply mw_close_inv, fold_mw_write_inv; auto. apply mw_open_inv; auto.
-  - pose proof Hs as (Hf & Hc). destruct Hop as (Ho & Hw & Hl). unfold InvS. split.
-    + rewrite write_frame_out. apply Forall_app. split; [assumption|]. constructor; [|constructor].
-      apply mk_frame_wf; [destruct Ho as [-> | ->]; lia | split; auto; unfold small; lia].
-    + rewrite frames_pf_write, conf_app, Hc. cbn [conf]. rewrite frame_ok_built.
-      destruct (N.ltb_spec 125 (N.of_nat (length p))); [lia|].
-      destruct Ho as [-> | ->]; reflexivity.
-  - pose proof Hs as (Hf & Hc). destruct (close_payload code reason) as [p|] eqn:Ecp; [|assumption].
+  - destruct Hop as (Ho & Hw & Hl). apply write_frame_top_inv; auto; [destruct Ho as [-> | ->]; lia | split; auto; unfold small; lia |].
+    intros _. rewrite frame_ok_built. destruct (N.ltb_spec 125 (N.of_nat (length p))); [lia|].
+    destruct Ho as [-> | ->]; reflexivity.
+  - destruct (close_payload code reason) as [p|] eqn:Ecp; [|assumption].
     destruct (close_payload_ok_of _ _ _ Hop Ecp) as (Hok & Hw & Hl).
-    unfold InvS. split.
-    + rewrite write_frame_out. apply Forall_app. split; [assumption|]. constructor; [|constructor].
-      apply mk_frame_wf; [lia | split; auto; unfold small; lia].
-    + rewrite frames_pf_write, conf_app, Hc. cbn [conf]. rewrite frame_ok_built.
-      destruct (N.ltb_spec 125 (N.of_nat (length p))); [lia|].
-      change (is_control 8) with true. cbn [N.eqb Pos.eqb orb negb andb is_data_first]. rewrite Hok. reflexivity.
+    apply write_frame_top_inv; auto; [lia | split; auto; unfold small; lia |].
+    intros _. rewrite frame_ok_built. destruct (N.ltb_spec 125 (N.of_nat (length p))); [lia|].
+    change (is_control 8) with true. cbn [N.eqb Pos.eqb orb negb andb is_data_first]. rewrite Hok. reflexivity.
 Qed.
 
 Lemma w_run_inv_from : forall prog s, InvS s -> Forall wf_op prog -> InvS (fold_left (w_step keys dz cfg) prog s).
